@@ -8,4 +8,10 @@ def get(pid):
     if pid in ('C05', 'C14', 'C15', 'C16'):
         from . import parser_checks
         return getattr(parser_checks, 'check_' + pid.lower())
+    if pid == 'C03':
+        from . import portsel_checks
+        return portsel_checks.check_c03
+    if pid in ('C07', 'C13'):
+        from . import build_checks
+        return getattr(build_checks, 'check_' + pid.lower())
     raise SystemExit(f'no check registered for {pid}')
